@@ -82,7 +82,10 @@ class Check:
     def ddmin_crash(self, job, path):
         """Delta-debug an operation list that makes a sanitizer fire (rapidcheck cannot shrink through an abort)."""
         lines = open(path).read().splitlines()
-        head = [l for l in lines if l.startswith("#")]
+        head = []
+        for l in lines:
+            if l.startswith("#") and l not in head and "minimised by delta debugging" not in l:
+                head.append(l)
         ops = [l for l in lines if l and not l.startswith("#")]
         def crashes(cand):
             p = path + ".dd"
